@@ -257,7 +257,10 @@ func negotiateCompression( // nolint:nonamedreturns
 			// Connect protocol, we should return CodeUnimplemented and specify
 			// acceptable compression(s) (in addition to setting the a
 			// protocol-specific accept-encoding header).
-			return "", "", errorf(
+			// The error we're about to send is itself a response, and it isn't
+			// compressed: identity, rather than an empty name, is what its encoding
+			// header must say (if it says anything).
+			return compressionIdentity, compressionIdentity, errorf(
 				CodeUnimplemented,
 				"unknown compression %q: supported encodings are %v",
 				sent, availableCompressors.CommaSeparatedNames(),
